@@ -22,6 +22,7 @@ func invFontMapLRU() invCfg {
 		compute:      []fnRef{{"fontscan", "FontMap", "ResolveFace"}},
 		invalidators: []invalidator{{call: &fnRef{"fontscan", "runeLRU", "Clear"}, desc: "lru.Clear()"}},
 		keyFields:    []string{"query", "script"},
+		keyCtor:      &fnRef{"fontscan", "runeLRU", "KeyFor"},
 		exempt: map[string]string{"lru": "the cache itself", "built": "state of the candidates cache, see FontMap.candidates", "candidates": "derived cache, rebuilt from query/script/database (R-INV FontMap.candidates)",
 			"faceCache": "idempotent load memo keyed by Location, written by the computation itself", "metaCache": "idempotent load memo", "firstFace": "idempotent memo of the first loaded face",
 			"footprintsBuffer": "scratch, fully rewritten by each selection", "cribleBuffer": "scratch, reset by each selection", "logger": "does not influence the result"},
